@@ -19,7 +19,12 @@ class C14(Check):
             "over UDP and TCP under the default and four constant policies, plus a sample of the exhaustive header "
             "sweep 16 opcodes x QR x counts {0..3}^4 (all 8192 go through the direct oracle); ServeMux.match and "
             "ServeDNS for generated pattern sets (label suffixes with flipped case, non-boundary text suffixes, escaped "
-            "dots and backslashes, root, removal/overwrite) x names x {DS, other}; reply skeletons on random headers. "
+            "dots and backslashes, root, removal/overwrite) x names x {DS, other}; the case-folding sweep: every octet "
+            "value 0..255 in every position class of a name (own label / first, middle, last octet; first, middle, "
+            "last label; among letters of either case and among digits), pattern with the octet and question with "
+            "octet^0x20, match and ServeDNS, Handle/HandleRemove in the other case, expecting the pattern's handler "
+            "exactly when the names are equal under ASCII case folding (letters and boundary octets also as model "
+            "cases); reply skeletons on random headers. "
             "Every message runs through the real serveUDP/serveTCPConn loops on scripted conns AND through serveDNS "
             "directly (hook). Stream histories (1..6 messages of every admission class on one connection, messages of "
             "255..4096 octets, 128 messages, incomplete last frame) are delivered through the real "
